@@ -26,16 +26,17 @@ def norm(s):
 by_subject = {norm(s): h for h, s in commits}
 # agent patch files: id prefix -> subject
 id_subject = {}
-for p in glob.glob("/tmp/ag-*/fixes/*.patch") + glob.glob(os.path.join(VERIF, "fixes.src", "*", "*.patch")):
+for p in glob.glob(os.path.join(VERIF, "fixes", "[A-Z]*.patch")) + glob.glob("/tmp/ag-*/fixes/*.patch"):
     grp = p.split("/")[-3]
     txt = open(p, errors="replace").read()
     m = re.search(r"^Subject: (?:\[PATCH[^\]]*\] )?(.*?)\n(?:\S|$)", txt, re.S | re.M)
     if not m:
         continue
     subj = norm(m.group(1).replace("\n ", " "))
-    pid = os.path.basename(p).split("-")[0]
-    id_subject[(grp, pid)] = subj
-    id_subject.setdefault(("*", pid), subj)
+    parts = os.path.basename(p).split("-")
+    for pid in (parts[0], "-".join(parts[:2])):
+        id_subject[(grp, pid)] = subj
+        id_subject.setdefault(("*", pid), subj)
 kf = os.path.join(VERIF, "known_findings.jsonl")
 out, changed = [], 0
 for l in open(kf):
@@ -44,7 +45,9 @@ for l in open(kf):
     e = json.loads(l)
     if e.get("status") == "fixed" and e.get("commit") in (None, "", "pending"):
         grp = "ag-" + PROP_GROUP.get(e.get("property"), "?")
-        subj = id_subject.get((grp, e["id"])) or id_subject.get(("*", e["id"]))
+        short = re.sub(r"^C\d\d-", "", e["id"])
+        subj = (id_subject.get((grp, e["id"])) or id_subject.get((grp, short)) or id_subject.get(("fixes", e["id"]))
+                or id_subject.get(("fixes", short)) or id_subject.get(("*", e["id"])) or id_subject.get(("*", short)))
         if subj and subj in by_subject:
             e["commit"] = by_subject[subj]
             changed += 1
